@@ -124,6 +124,8 @@ def make_cells(tier):
         require(1 <= n <= 8 and 1 <= m <= 3 and 0 <= k <= n and case["T"] > 0)
         P = np.array(case["P"], float)
         got = cy.vec(curve_fn(n, m, k)(P, case["T"], case["t"]))
+        if got.shape[0] != m:
+            raise Violation("Bezier (degree %d, derivative order %d) of a %d-dimensional curve evaluates to %d values" % (n, k, m, got.shape[0]), **case)
         for i in range(m):
             want, mag = exact_curve(case["P"][i], case["T"], case["t"], k)
             cmp(got[i], want, mag, "Bezier degree %d, derivative order %d, coordinate %d" % (n, k, i), **case)
